@@ -6,7 +6,9 @@ HERE = os.path.dirname(os.path.dirname(os.path.abspath(__file__)))
 ENV = dict(os.environ, GOFLAGS="-mod=readonly", GOPROXY="off", GOSUMDB="off", GOTOOLCHAIN="local", GOWORK="off")
 STABLE = [".", "./testcases", "./pot", "./settlement", "./combination", "./regulator"]
 impl = sorted("C" + f[1:3] for f in os.listdir(os.path.join(HERE, "analyzer")) if f.startswith("c") and f.endswith(".go") and f[1:3].isdigit())
-sub = sys.argv[1] if len(sys.argv) > 1 else ""
+if os.environ.get("PFVERIFY_PROPS"):
+    impl = [x for x in impl if x in os.environ["PFVERIFY_PROPS"].split(",")]
+sub = sys.argv[1] if len(sys.argv) > 1 and not sys.argv[1].startswith("--") else ""
 tests = "--tests" in sys.argv
 base = tempfile.mkdtemp(prefix="pfref_")
 vdir = os.path.join(base, "verif"); os.makedirs(vdir)
